@@ -61,7 +61,9 @@ PINNED = {
 # TRANSLATED_FOR states that as `bds50_readers_as_modelled` / `bds60_readers_as_modelled`.  A rewrite that keeps the
 # values no longer alarms; a behavioural edit fails the named theorem.  (`fn read_tas` stays pinned: its obligation is `_partial`.)
 TRANSLATED = {D + "bds/bds50.rs": ["fn read_roll", "fn read_track", "fn read_groundspeed", "fn read_rate"],
-              D + "bds/bds60.rs": ["fn read_heading", "fn read_ias", "fn read_mach", "fn read_vertical"]}
+              D + "bds/bds60.rs": ["fn read_heading", "fn read_ias", "fn read_mach", "fn read_vertical"],
+              D + "bds/bds40.rs": ["fn read_selected", "fn read_qnh"],
+              D + "bds/bds44.rs": ["fn read_pressure", "fn read_humidity"]}
 TRANSLATED_FOR = {"C01", "C03", "C07", "C08"}
 import re
 try:
